@@ -487,6 +487,7 @@ def report(ctx, sp, op, sub, out_c, what, result, expected_text, extra=None):
         key += "/output-ambiguous"
     ctx.count("reports_" + op.replace("-", "_"))
     detail = {
+        "term_kinds": shape_key(sp),
         "form": safe_str(sp.F, 1500),
         "pieces": [[k, it, str(sid)] for k, it, sid, _ in sp.pieces],
         "result": safe_str(result, 1500),
@@ -504,6 +505,16 @@ def report(ctx, sp, op, sub, out_c, what, result, expected_text, extra=None):
 def shape_key(sp):
     ks = sorted({p[0].split(":")[0].split("/")[0] for p in sp.pieces})
     return "+".join(ks)
+
+
+def coarse_key(sp):
+    """Mechanism class of the input for violation keys: are there terms that are only affine in the trial function?"""
+    ks = {p[0].split(":")[0].split("/")[0] for p in sp.pieces}
+    if "aL" in ks:
+        return "affine-terms"
+    if "gat" in ks:
+        return "gateaux-terms"
+    return "separate-terms"
 
 
 def check_parts(ctx, sp, F, wss, fields, tag=""):
@@ -572,7 +583,7 @@ def check_parts(ctx, sp, F, wss, fields, tag=""):
         return PF("00", ws, B)
 
     has_M = any(k.split(":")[0] in ("M", "gat") for k in sp.kinds()) or any(nonzero(M, ws) for ws in wss)
-    skey = shape_key(sp) + tag
+    skey = coarse_key(sp) + tag
     ok_l, l = call(ctx, "lhs", lambda: lhs(F))
     ok_r, r = call(ctx, "rhs", lambda: rhs(F))
     ok_f, fn = call(ctx, "functional", lambda: functional(F))
@@ -724,7 +735,7 @@ def check_action(ctx, sp, F, wss, fields, rng):
             ctx.count("nontrivial")
             ctx.count("nontrivial_action")
     if o.verdict == "violated":
-        sub = mode + "/" + shape_key(sp)
+        sub = mode
         # degenerate input: F.arguments() lists the replaced arguments, but the value of F does not depend on them
         # (they occur only in terms that vanish identically, e.g. the second derivative of a functional linear in w)
         try:
